@@ -373,6 +373,21 @@ def main(argv=None):
                     violations.append({'obligation': oname + ' (bounded native enumeration)', 'replay': path, 'failed': rdoc.get('failed'),
                                        'inputs': rdoc.get('inputs'), 'outcome': rdoc.get('outcome'), 'result': rdoc.get('result')})
 
+    # ---- known findings that have only a native reproduction (no obligation of a contract): the script is run on the
+    # current tree; the finding is reported while the script still demonstrates it (exit 1, or an UNSOUND line)
+    for kfe in kf:
+        ob = kfe.get('obligation', '')
+        if kfe.get('status') == 'known' and kfe.get('property') == prop and ob.startswith('(native reproduction only)') and not a.only:
+            script = os.path.join(ROOT, ob.split(')', 1)[1].strip())
+            try:
+                pr = subprocess.run([VENV_PY, script], capture_output=True, text=True, timeout=600, cwd=REPO,
+                                    env=dict(os.environ, PYTHONPATH=REPO, FPY_REPO=REPO))
+                present = pr.returncode == 1 or 'UNSOUND' in pr.stdout
+            except Exception:
+                present = False
+            if present:
+                known_reported.append({'obligation': ob, 'finding': kfe.get('id'), 'what': kfe.get('what'), 'replay': script})
+
     # ---- encoder cross-check (CPython vs pyvc's interpreter on concrete inputs) + runtime contracts
     xc = {}
     try:
